@@ -333,6 +333,23 @@ func (x *Exec) copyElems(dst, dstOff, src, srcOff, n Term) Term {
 		}
 		return out
 	}
+	return x.copyElemsBounded(dst, dstOff, src, srcOff, n, -1)
+}
+
+// copyElemsBounded: like copyElems; when the symbolic count n is known to be at most `bound` (a small constant),
+// the copy is unrolled into guarded stores instead of a lambda term.
+func (x *Exec) copyElemsBounded(dst, dstOff, src, srcOff, n Term, bound int64) Term {
+	if c, ok := n.Const(); ok && c.IsInt64() && c.Int64() <= smallCopy {
+		return x.copyElems(dst, dstOff, src, srcOff, n)
+	}
+	if bound >= 0 && bound <= smallCopy {
+		out := dst
+		for i := int64(0); i < bound; i++ {
+			k := BVInt(i, 64)
+			out = Ite(bvCmp("bvult", k, n), Store(out, bvBin("bvadd", dstOff, k), Select(src, bvBin("bvadd", srcOff, k))), out)
+		}
+		return x.C.Name("cpb", out)
+	}
 	// symbolic length: lambda array (z3)
 	x.C.usesLambda = true
 	body := fmt.Sprintf("(lambda ((j!c (_ BitVec 64))) (ite (and (bvuge j!c %s) (bvult (bvsub j!c %s) %s)) (select %s (bvadd %s (bvsub j!c %s))) (select %s j!c)))",
@@ -345,6 +362,7 @@ func (x *Exec) builtinCopy(fr *Frame, st *State, call *ssa.CallCommon, args []Va
 	elemT := call.Args[0].Type().Underlying().(*types.Slice).Elem()
 	r, hs := x.elemRegion(elemT)
 	var srcArr, srcOff, srcLen Term
+	var srcCapT *Term
 	if b, ok := call.Args[1].Type().Underlying().(*types.Basic); ok && b.Info()&types.IsString != 0 {
 		srcArr = x.C.Fresh("strbytes", SArr(SIdx, x.C.SortOf(elemT)))
 		srcOff = BVInt(0, 64)
@@ -355,6 +373,8 @@ func (x *Exec) builtinCopy(fr *Frame, st *State, call *ssa.CallCommon, args []Va
 		srcArr = x.C.Name("cpsrc", Select(h, SlBase(src)))
 		srcOff = SlOff(src)
 		srcLen = SlLen(src)
+		sc := SlCap(src)
+		srcCapT = &sc
 	}
 	n := x.C.Name("cpn", Ite(bvCmp("bvult", SlLen(dst), srcLen), SlLen(dst), srcLen))
 	if x.snapRefs[SlBase(dst).S] {
@@ -362,7 +382,26 @@ func (x *Exec) builtinCopy(fr *Frame, st *State, call *ssa.CallCommon, args []Va
 	}
 	h := x.heapGet(st, r, hs)
 	darr := Select(h, SlBase(dst))
-	narr := x.copyElems(darr, SlOff(dst), srcArr, srcOff, n)
+	// n <= len <= cap of both operands: a constant capacity bounds the copy
+	bound := int64(-1)
+	if c, ok := SlCap(dst).Const(); ok && c.IsInt64() {
+		bound = c.Int64()
+	}
+	if srcCapT != nil {
+		if c, ok := srcCapT.Const(); ok && c.IsInt64() && (bound < 0 || c.Int64() < bound) {
+			bound = c.Int64()
+		}
+	}
+	if _, isConst := n.Const(); !isConst && (bound < 0 || bound > smallCopy) {
+		// ask the solver whether the count is provably small on this path (e.g. copies out of a stack buffer)
+		for _, b := range []int64{8, 32, smallCopy} {
+			if !x.feasible(And(st.PC, bvCmp("bvugt", n, BVInt(b, 64)))) {
+				bound = b
+				break
+			}
+		}
+	}
+	narr := x.copyElemsBounded(darr, SlOff(dst), srcArr, srcOff, n, bound)
 	// copy with n == 0 must not touch the heap (dst may be nil)
 	x.heapSet(st, r, Ite(Eq(n, BVInt(0, 64)), h, Store(h, SlBase(dst), narr)))
 	return TV{T: n, Typ: types.Typ[types.Int]}, nil
